@@ -167,7 +167,8 @@ def _extract_flags(
     for attr in attrs:
         value = attr.serialize(omit_key=True)
 
-        if value not in allowed_flags:
+        # NOTE: Flags are bare words. `key=only` is a keyword argument whose value is the variable `only`.
+        if attr.key or value not in allowed_flags:
             remaining_attrs.append(attr)
             continue
 
